@@ -336,6 +336,7 @@ class _Run:
         self.evals = 0
         self.h = hashlib.sha1()
         self.rot = 0
+        self.primary = 0
         self.current = b""
 
     # -- decoding through the entry points -------------------------------------------------------
@@ -364,11 +365,15 @@ class _Run:
         self.evals += 1
         self.current = data
         signal.setitimer(signal.ITIMER_VIRTUAL, CPU_LIMIT_S)
-        st, got = self._decode_one(cls, data, 0)
-        results = [("parse", st, got)]
+        # every run has a PRIMARY entry point (drawn once) that sees the whole fault space of the run, so that a
+        # defect confined to one of them (the sized loader, say) meets every fault kind in a quarter of the runs;
+        # every third input also goes through one of the other three, in rotation
+        first = self.primary
+        st, got = self._decode_one(cls, data, first)
+        results = [(self.ENTRY_NAMES[first], st, got)]
         self.rot = (self.rot + 1) % 9
         if self.rot % 3 == 0:
-            entry = 1 + self.rot // 3
+            entry = [e for e in range(4) if e != first][self.rot // 3]
             st2, got2 = self._decode_one(cls, data, entry)
             results.append((self.ENTRY_NAMES[entry], st2, got2))
             if st != st2:
@@ -390,7 +395,7 @@ class _Run:
         dp = None
         dp_done = False
         for entry, st, got in results:
-            via = "" if entry == "parse" else f" via {entry}"
+            via = f" via {entry}"
             if st == "ok":
                 if expect == "raise" or bad:
                     raise Violation("C17.M3", f"accepted:{kind}",
@@ -475,7 +480,9 @@ class _Run:
             stats["skipped:valid-encoding-rejected"] += 1
             trace.append(f"skip: valid encoding rejected: {type(base).__name__}")
             return False, 0, 0.0
-        trace.append(f"{cls.__name__} writer={writer} enc={len(enc)}B {enc.hex()[:120]} {short(msg, 120)}")
+        self.primary = tape.draw(4, "primary-entry-point")
+        stats[f"probe:primary-entry-point-{self.ENTRY_NAMES[self.primary]}"] += 1
+        trace.append(f"{cls.__name__} writer={writer} entry={self.ENTRY_NAMES[self.primary]} enc={len(enc)}B {enc.hex()[:120]} {short(msg, 120)}")
         top = wire.parse_fields(enc)
         bounds = [f.start for f in top] + [len(enc)]
         # M1 is judged in CPU time of this process (ITIMER_VIRTUAL), re-armed for every mutated input:
